@@ -22,6 +22,7 @@ SHIMS = CORE_SHIM_MODULES + [
     'cirq.circuits.moment',
     'cirq.circuits.frozen_circuit',
     'cirq.qis.states',
+    'cirq.value.product_state',
     'cirq.sim.sparse_simulator',
     'cirq.sim.simulator_base',
     'cirq.sim.simulator',
@@ -41,6 +42,9 @@ SHIMS = CORE_SHIM_MODULES + [
 ]
 
 BOX = 4.0
+
+
+R2 = 2**-0.5
 
 
 def menu():
@@ -226,6 +230,36 @@ def obligations(tier):
                 cx.close(got, exp, label='cirq.final_state_vector')
 
         obs.append(Obligation(f'simulate{nops}.{first}' + (f'.{second[0]}' if second else ''), body, twin=lambda cx, b=body: b(cx, wrong=True), opts={'weight': 10, 'max_paths': 200000}, desc=f'Simulator.simulate / simulate_moment_steps (split_untangled_states on/off, permuted qubit order), Circuit.final_state_vector, cirq.final_state_vector, DensityMatrixSimulator on every {nops}-op circuit starting with {first}; initial state = every basis index or a fully SYMBOLIC state vector'))
+    # ---- ProductState initial states: expressed in the SIMULATION's qubit order ---------------------------------------
+    KETS = [('KET_ZERO', [1, 0]), ('KET_ONE', [0, 1]), ('KET_PLUS', [R2, R2]), ('KET_MINUS', [R2, -R2]), ('KET_IMAG', [R2, 1j * R2]), ('KET_MINUS_IMAG', [R2, -1j * R2])]
+
+    def product_state_body(cx, wrong=False):
+        q = cirq.LineQubit.range(2)
+        t = cx.real('t', -4.0, 4.0)
+        ka = cx.choose('ket0', len(KETS))
+        kb = cx.choose('ket1', len(KETS))
+        order = [[0, 1], [1, 0]][cx.choose('order', 2)]
+        simk = cx.choose('simulator', 2)
+        split = bool(cx.choose('split', 2))
+        ps = getattr(cirq, KETS[ka][0])(q[0]) * getattr(cirq, KETS[kb][0])(q[1])
+        circuit = cirq.Circuit(cirq.X(q[0]) ** t, cirq.CNOT(q[0], q[1]))
+        # documented: the tensor product of the named one-qubit states, axes in the order of `qubit_order`
+        vecs = {0: np.array(KETS[ka][1], dtype=complex), 1: np.array(KETS[kb][1], dtype=complex)}
+        psi = np.asarray(np.kron(vecs[order[0]], vecs[order[1]]).reshape(2, 2), dtype=object)
+        pos = {qi: order.index(qi) for qi in (0, 1)}
+        psi = EM.apply_matrix_to_axes(D.X(t) if not wrong else D.X(t + 1), psi, [pos[0]])
+        psi = EM.apply_matrix_to_axes(D.CX(1.0), psi, [pos[0], pos[1]])
+        exp = psi.reshape(-1)
+        qo = [q[i] for i in order]
+        if simk == 0:
+            res = cirq.Simulator(dtype=np.complex128, split_untangled_states=split).simulate(circuit, qubit_order=qo, initial_state=ps)
+            cx.close(res.final_state_vector, exp, label=f'Simulator.simulate(initial_state=ProductState, qubit_order={order}) split={split}')
+        else:
+            res = cirq.DensityMatrixSimulator(dtype=np.complex128, split_untangled_states=split).simulate(circuit, qubit_order=qo, initial_state=ps)
+            cx.close(res.final_density_matrix, _outer(exp), label=f'DensityMatrixSimulator.simulate(initial_state=ProductState, qubit_order={order}) split={split}')
+
+    obs.append(Obligation('simulate.product_state_init', product_state_body, twin=lambda cx: product_state_body(cx, wrong=True), opts={'weight': 4}, desc='Simulator / DensityMatrixSimulator.simulate(X**t, CNOT) from every cirq.ProductState of two named one-qubit states (36), both qubit orders, split on/off, symbolic t: the initial state is the tensor product in the order of qubit_order'))
+
     # ---- ClassicalStateSimulator on reversible classical circuits: symbolic classical bits ---------------------
     def classical_menu():
         xor2 = cirq.SumOfProducts([[0, 1], [1, 0]])
